@@ -84,6 +84,8 @@ def case(draw):
         occ0=draw(st.sampled_from([False, False, True])),
         elem=draw(st.sampled_from(["right", "right", "blank", "wrong", "lower"])),
         het_res=draw(st.sampled_from([None, None, None, 0, 1, 2])),
+        # single-model files of docking programs: "MODEL 1" (number not in columns 11-14) / bare "MODEL"
+        odd_model=draw(st.sampled_from([None, None, None, "MODEL 1", "MODEL", "MODEL        1"])),
         crlf=draw(st.sampled_from([False, False, True])),
         truncate=draw(st.sampled_from([None, None, 54, 60, 66, 78])),
         trailing=draw(st.sampled_from([0, 0, 3])),
@@ -220,6 +222,10 @@ def render(case):
                 out.append(build.fmt_atom(1, r["name"], r["resn"], r["chain"], r["seq"], r["icode"],
                                           r["xyz"] + 0.5 * m, rec=r["rec"]))  # fmt: skip
             out.append("ENDMDL")
+    elif case.get("odd_model"):
+        out.append(case["odd_model"])
+        out += body
+        out.append("ENDMDL")
     else:
         out += body
     out.append("END")
@@ -279,6 +285,7 @@ def check(case):
               *([f"het-alt={het['alt']}"] if het else []), *(["segid"] if case.get("segid") else []),
               *(["occupancy-0"] if case.get("occ0") else []), f"element={case.get('elem', 'right')}",
               *(["hetatm-standard-residue"] if case.get("het_res") is not None else []),
+              *(["odd-model-line"] if case.get("odd_model") and not case["models"] else []),
               *("na-old-names" if x.get("stars") else "na" for x in case["desc"].get("na", [])))  # fmt: skip
     if not r.ok:
         if mode.startswith("clean"):
@@ -289,6 +296,22 @@ def check(case):
     want = Counter()
     # the 5'-terminal phosphate of a strand is removed by design (the termini do not model it)
     five = {(m["id"], m["start"]) for m in s.strands}
+    # ... and so is the first nucleotide after any TER record (an extra TER at a residue boundary ends
+    # the strand there; what follows is a new strand with its own 5' end)
+    after_ter = False
+    for ln in text.replace("\r", "").split("\n"):
+        rec6 = ln[:6].strip()
+        if rec6 == "TER":
+            after_ter = True
+        elif rec6 in ("ATOM", "HETATM") and len(ln) >= 26:
+            if after_ter:
+                try:
+                    five.add((ln[21], int(ln[22:26])))
+                except ValueError:
+                    pass
+            after_ter = False
+        elif rec6 == "ENDMDL":
+            break
     phosphate = ("P", "OP1", "OP2", "O1P", "O2P")
     for a in oracle:
         if "dropwater" in mode and a["resn"] in ("HOH", "WAT"):
